@@ -97,7 +97,7 @@ def _events(scn):
             window(s, [0, 3, 0, 0], 'kind=%d' % kind, 'kind', kind)
     elif hf == 'sockopt':
         for level in (0, 1, 6, 7, 0xfff, 0xffff):
-            for opt in (1, 4, 8, 0x1001, 0x1002, 0x2000):
+            for opt in (1, 4, 8, 0x1001, 0x1002, 0x2000, 0, 3, 0x1121, 0x7777):      # (the last four: options nobody names)
                 s = list(base_s)
                 s[1], s[2] = level, opt
                 window(s, [0, 0, 0, 0], 'level=%#x opt=%#x' % (level, opt), 'level', level)
@@ -249,14 +249,24 @@ def execute(scn):
                 logs_, e1 = common.drain(lambda: p.formatted_logs(io.BytesIO(data3)))
                 kev_, e2 = common.drain(lambda: p.formatted_kevents(io.BytesIO(data3)))        # default (bundled) code table
                 tr_, e3 = common.drain(lambda: p.formatted_traces(io.BytesIO(data3)))
-                outs[h] = [logs_, kev_, tr_, [type(x).__name__ for x in (e1, e2, e3) if x]]
+                # the same listing in colour, and under a process filter that differs from the process name by letter case only
+                pc = t['pk'].PyKdebugParser()
+                pc.color = True
+                trc_, e4 = common.drain(lambda: pc.formatted_traces(io.BytesIO(data3)))
+                lgc_, e5 = common.drain(lambda: pc.formatted_logs(io.BytesIO(data3)))
+                pf = t['pk'].PyKdebugParser()
+                pf.color = False
+                pf.filter_process = 'PROC'
+                trf_, e6 = common.drain(lambda: pf.formatted_traces(io.BytesIO(data3)))
+                lgf_, e7 = common.drain(lambda: pf.formatted_logs(io.BytesIO(data3)))
+                outs[h] = [logs_, kev_, tr_, trc_ + lgc_, trf_ + lgf_, [type(x).__name__ for x in (e1, e2, e3, e4, e5, e6, e7) if x]]
         ref_h = hosts[0]
         for h in hosts[1:]:
-            for vi, view in enumerate(('formatted_logs', 'formatted_kevents', 'formatted_traces')):
+            for vi, view in enumerate(('formatted_logs', 'formatted_kevents', 'formatted_traces', 'coloured listings', 'listings under a process filter')):
                 if outs[h][vi] != outs[ref_h][vi]:
                     a = next(((x, y) for x, y in zip(outs[ref_h][vi], outs[h][vi]) if x != y), (len(outs[ref_h][vi]), len(outs[h][vi])))
                     viols.append({'tag': 'host-dependent-text', 'sig': 'environment:' + view,
-                                  'detail': '%s differs between host %s and host %s (time zone / system files): %r' % (view, ref_h, h, a)})
+                                  'detail': '%s differs between host %s and host %s (time zone / system files / text encoding / os identity): %r' % (view, ref_h, h, a)})
                     break
     seen = set()
     uniq = []
